@@ -144,16 +144,40 @@ def _cache_case(c):
     from sparseSpACE.Extrapolation import SliceGrouping
     a, b = c["a"], c["b"]
     seq = [c["trees"][0], c["trees"][1], c["trees"][0]]
+    if c.get("refuse"):
+        # the middle request is one the grid refuses (the deepest point of the tree labelled one level too deep: the levels do not fit
+        # the spacing); the caller catches the exception and asks for the first grid again
+        pts, lv = c["trees"][0]
+        bad = list(lv)
+        bad[max(range(len(bad)), key=lambda i: bad[i])] += 1
+        seq = [c["trees"][0], ("refuse", (list(pts), bad)), c["trees"][0]]
     fails = []
-    for sg in (SliceGrouping.UNIT, SliceGrouping.GROUPED_OPTIMIZED):
+    for sg in (SliceGrouping.UNIT, SliceGrouping.GROUPED, SliceGrouping.GROUPED_OPTIMIZED) if c.get("refuse") else (SliceGrouping.UNIT, SliceGrouping.GROUPED_OPTIMIZED):
         key = {"grid": "GlobalRombergGrid", "grouping": sg.name}
         on = GlobalRombergGrid(np.array([a]), np.array([b]), do_cache=True, slice_grouping=sg)
         off = GlobalRombergGrid(np.array([a]), np.array([b]), do_cache=False, slice_grouping=sg)
         for step, (pts, lv) in enumerate(seq):
+            if pts == "refuse":
+                for g in (on, off):
+                    try:
+                        g.set_grid([list(lv[0])], [list(lv[1])])
+                    except Exception:
+                        pass
+                continue
             on.set_grid([list(pts)], [list(lv)])
             off.set_grid([list(pts)], [list(lv)])
             w_on = [float(x) for x in on.weights[0]]
             w_off = [float(x) for x in off.weights[0]]
+            if c.get("refuse") and step == 2:
+                fresh = GlobalRombergGrid(np.array([a]), np.array([b]), do_cache=False, slice_grouping=sg)
+                fresh.set_grid([list(pts)], [list(lv)])
+                w_fresh = [float(x) for x in fresh.weights[0]]
+                for nm, w in (("cached", w_on), ("uncached", w_off)):
+                    if len(w) != len(w_fresh) or any(not (abs(x - y) <= 1e-13 * max(1.0, abs(y))) for x, y in zip(w, w_fresh)):
+                        fails.append(fail("weights_after_refused_request", "grid %r asked again after a refused request on the %s object: %r, fresh object %r" % (pts, nm, w[:6], w_fresh[:6]), key))
+                        break
+                if fails:
+                    break
             if w_on != w_off:
                 fails.append(fail("weight_cache_transparent", "step %d grid %r: cached %r, uncached %r" % (step, pts, w_on, w_off), key))
                 break
@@ -175,6 +199,13 @@ def _objreuse_case(c):
                                                                                                        force_balanced_refinement_tree=fb))
         g = make()
         for step, (pts, lv) in enumerate(c["sequence"]):
+            if pts == "refuse":
+                try:
+                    g.set_grid(list(lv[0]), list(lv[1]))
+                    g.get_weights()
+                except Exception:
+                    pass
+                continue
             g.set_grid(list(pts), list(lv))
             w1 = [float(x) for x in g.get_weights()]
             w1b = [float(x) for x in g.get_weights()]          # the same request twice on one object
@@ -282,6 +313,8 @@ def cases(tier):
     for t0 in small:
         for t1 in small:
             out.append({"config": {"kind": "cache", "a": 0.0, "b": 1.0, "trees": [list(t0), list(t1)]}})
+    for t0 in trees.tree_family(3, 4, -1.0, 1.0):
+        out.append({"config": {"kind": "cache", "a": -1.0, "b": 1.0, "trees": [list(t0), list(t0)], "refuse": True}})
     fam = trees.tree_family(3, 4, 0.0, 1.0)
     famb = [t for t in fam if _children_ok(t[1]) == (True, True)]
     other = trees.tree_family(2, 3, 2.0, 4.0)
@@ -289,6 +322,9 @@ def cases(tier):
         for t1 in fam[:14]:
             out.append({"config": {"kind": "objreuse", "balanced": False, "sequence": [list(t0), list(t1), list(t0)]}})
         out.append({"config": {"kind": "objreuse", "balanced": False, "sequence": [list(t0), list(other[len(t0[0]) % len(other)]), list(t0)]}})
+        bad = list(t0[1])
+        bad[max(range(len(bad)), key=lambda i: bad[i])] += 1
+        out.append({"config": {"kind": "objreuse", "balanced": False, "sequence": [list(t0), ["refuse", [list(t0[0]), bad]], list(t0)]}})
     for t0 in famb[:8]:
         for t1 in famb[:8]:
             out.append({"config": {"kind": "objreuse", "balanced": True, "sequence": [list(t0), list(t1), list(t0)]}})
